@@ -75,7 +75,11 @@ def run_time(ctx, replay, key, mode, mc_quick, mc_thorough, rule, assumptions):
         bfile = ctx.path("behaviours.ndjson")
         vlib.write_ndjson(bfile, beh)
         ctx.extra["tlc_behaviours_replayed"] = len(beh)
-        ctx.drive(drv, ["time", mode, trace, bfile])
+        env = {}
+        if mode == "c17":
+            from c10 import build_binary
+            env["VERIF_DISPLAY_BIN"] = build_binary(ctx, "displayrtcm3")
+        ctx.drive(drv, ["time", mode, trace, bfile], env=env)
     events = vlib.read_ndjson(trace)
     if not events:
         raise vlib.Inconclusive("driver produced no events")
